@@ -233,7 +233,30 @@ class Check:
         self.proof["discharged"] = len(names) if not (bad or notclosed) else 0
         self.log("Coq: %d statements in %d files compiled, %d property theorems, assumptions: %s" % (
             len(names), len(deps), len(top), sorted(set(self.proof["print_assumptions"]))[:3]))
-        return not (bad or notclosed or len(pa) == 0)
+        chk_bad = False
+        if self.tier == "thorough" and not os.environ.get("VERIF_NO_COQCHK"):
+            chk_bad = not self.coqchk(props_file)
+        return not (bad or notclosed or len(pa) == 0 or chk_bad)
+
+    def coqchk(self, props_file, timeout=3000):
+        """thorough tier: re-check the compiled property file and everything it depends on with the independent
+        checker; its context summary must report no axiom, no type-in-type, no unsafe fixpoint, no assumed positivity"""
+        lib = "HV." + props_file[:-2].replace("/", ".")
+        t = time.time()
+        with Lock("coq"):
+            rc, out = sh("coqchk -o -silent -Q . HV %s" % lib, cwd=COQ, timeout=timeout)
+        summ = {}
+        for m in re.finditer(r"^\* ([^:\n]+):\s*(.*?)(?=^\* |\Z)", out, flags=re.M | re.S):
+            summ[m.group(1).strip()] = " ".join(m.group(2).split())
+        self.proof["coqchk"] = {"cmd": "cd coq && coqchk -o -silent -Q . HV %s" % lib, "exit": rc, "summary": summ,
+                                "wall_s": round(time.time() - t, 1)}
+        want = ["Axioms", "Constants/Inductives relying on type-in-type", "Constants/Inductives relying on unsafe (co)fixpoints",
+                "Inductives whose positivity is assumed"]
+        ok = rc == 0 and all(summ.get(k) == "<none>" for k in want)
+        if not ok:
+            self.broken.append("coqchk on %s: exit %s, summary %s; %s" % (lib, rc, summ, out.strip()[-400:]))
+        self.log("coqchk %s: %s (%.0fs)" % (lib, "clean" if ok else "NOT CLEAN", time.time() - t))
+        return ok
 
     # ------------------------------------------------------------------ Rust harness
     def cargo_build(self, bins=None, release=True, timeout=1500):
